@@ -252,9 +252,25 @@ where
         DelaunayTriangulation::with_empty_kernel(K::default())
     } else {
         let vs: Vec<_> = seed_pts.iter().enumerate().map(|(i, c)| mk_vertex::<i32, D>(*c, 0x9000 + i as u128, Some(1000 + i as i32))).collect();
-        match DelaunayTriangulation::with_topology_guarantee_and_options(&K::default(), &vs, TopologyGuarantee::DEFAULT, ConstructionOptions::default()) {
-            Ok(d) => d,
-            Err(_) => return,
+        // the family label names the constructor variant: the constructors have separate bulk-insertion loops and
+        // preprocessing paths, each of which has to leave the duplicate-detection index describing every vertex
+        let opts = if label.contains("[eps1e-12]") {
+            ConstructionOptions::default().with_dedup_policy(delaunay::core::delaunay_triangulation::DedupPolicy::Epsilon { tolerance: 1e-12 })
+        } else if label.contains("[exact,input]") {
+            ConstructionOptions::default().with_dedup_policy(delaunay::core::delaunay_triangulation::DedupPolicy::Exact).with_insertion_order(delaunay::core::delaunay_triangulation::InsertionOrderStrategy::Input)
+        } else {
+            ConstructionOptions::default()
+        };
+        if label.contains("[stats]") {
+            match DelaunayTriangulation::with_topology_guarantee_and_options_with_construction_statistics(&K::default(), &vs, TopologyGuarantee::DEFAULT, opts) {
+                Ok((d, _)) => d,
+                Err(_) => return,
+            }
+        } else {
+            match DelaunayTriangulation::with_topology_guarantee_and_options(&K::default(), &vs, TopologyGuarantee::DEFAULT, opts) {
+                Ok(d) => d,
+                Err(_) => return,
+            }
         }
     };
     let s0 = St { dt: base, former: vec![] };
@@ -288,6 +304,11 @@ fn main() {
     both::<2>(&rep, &cn, "from empty", a2.clone(), &[], 5 + x, &mut total, &mut bounds);
     both::<2>(&rep, &cn, "from constructed seed", a2.clone(), &[[0.0, 0.0], [2.0, 0.0], [0.0, 2.0], [2.0, 2.0], [0.5, 1.25]], 4 + x, &mut total, &mut bounds);
     let a3: Vec<[f64; 3]> = vec![[0.0, 0.0, 0.0], [2.0, 0.0, 0.0], [0.0, 2.0, 0.0], [0.0, 0.0, 2.0], [1.0, 0.0, 0.0], [0.5, 0.5, 0.5]];
+    let seed2b: Vec<[f64; 2]> = vec![[0.0, 0.0], [2.0, 0.0], [0.0, 2.0], [2.0, 2.0], [0.5, 1.25], [1.5, 0.5], [1.0, 1.75]];
+    for variant in ["[stats]", "[eps1e-12]", "[stats][eps1e-12]", "[exact,input]"] {
+        both::<2>(&rep, &cn, &format!("from constructed seed {variant}"), a2.clone(), &seed2b, 2 + x, &mut total, &mut bounds);
+    }
+    both::<3>(&rep, &cn, "from constructed seed [stats]", a3.clone(), &[[0.0, 0.0, 0.0], [2.0, 0.0, 0.0], [0.0, 2.0, 0.0], [0.0, 0.0, 2.0], [0.4, 0.3, 0.2], [1.0, 0.5, 0.25]], 2, &mut total, &mut bounds);
     both::<3>(&rep, &cn, "from constructed seed", a3.clone(), &[[0.0, 0.0, 0.0], [2.0, 0.0, 0.0], [0.0, 2.0, 0.0], [0.0, 0.0, 2.0], [0.4, 0.3, 0.2]], 3 + x, &mut total, &mut bounds);
     let a4: Vec<[f64; 4]> = alpha::cube_alphabet::<4>().into_iter().take(7).collect();
     let s4: Vec<[f64; 4]> = a4.iter().take(6).copied().collect();
